@@ -103,15 +103,15 @@ class Check:
                 unknown.append((rec, text, ext))
         for fid, (f, n) in hit.items():
             print('KNOWN-FINDING: property=%s %s [%s, %d cases this run]' % (self.pid, f.get('what', ''), fid, n))
-        seen_classes = set()
+        per_class = collections.Counter()
         nviol = 0
         for rec, text, ext in unknown:
-            cls = json.dumps({k: rec.get(k) for k in ('symptom', 'logic', 'site', 'input_class', 'options')}, sort_keys=True)
-            if cls in seen_classes and nviol >= 10:
+            cls = json.dumps({k: rec.get(k) for k in ('symptom', 'logic', 'site', 'input_class')}, sort_keys=True)
+            per_class[cls] += 1
+            if per_class[cls] > 2:      # at most two replays per class, so that every class gets reported
                 continue
-            seen_classes.add(cls)
             nviol += 1
-            if nviol > 25: break
+            if nviol > 60: break
             d = os.path.join(OUT_ROOT, 'replays', self.pid)
             os.makedirs(d, exist_ok=True)
             h = hashlib.sha1((cls + text).encode('latin-1', 'replace')).hexdigest()[:10]
